@@ -37,6 +37,7 @@ var waitExec = map[string]h.ExecFn{
 	"go.wait.adv.random":    goAdvRandom,
 	"go.wait.adv.subscribe": goAdvSubscribe,
 	"go.wait.adv.queue":     goAdvQueue,
+	"go.wait.deadline":      goWaitDeadline,
 }
 
 const (
@@ -1425,6 +1426,104 @@ func goAdvQueue(a []string) string {
 	return "ok"
 }
 
+// go.wait.deadline <T ms> <period ms> <waiters>: "returns an error once its timeout has elapsed". The best connection
+// keeps reporting heads BELOW the target, one every <period> (as a live chain does), for three timeouts; every waiter
+// (timeout T, target out of reach) must return its timeout error by T + tolerance, measured from its call. A canary
+// goroutine (sleeping 1 ms at a time) measures how late timers fire on this machine right now: the tolerance is
+// T/2 + 10 x the worst lateness seen, and a run whose lateness exceeds T/4 is repeated with a doubled T (and not judged
+// after three such runs): a loaded machine never alarms, a re-armed timer (which returns only T after the LAST head,
+// i.e. after about 4T) always does.
+func goWaitDeadline(a []string) string {
+	T := time.Duration(atoi(a[0])) * time.Millisecond
+	period := time.Duration(atoi(a[1])) * time.Millisecond
+	k := atoi(a[2])
+	for try := 0; try < 3; try++ {
+		res, conclusive := runDeadline(T, period, k)
+		if conclusive {
+			return res
+		}
+		T, period = 2*T, 2*period
+	}
+	return "ok"
+}
+
+func runDeadline(T, period time.Duration, k int) (string, bool) {
+	e := newEnv(pool.BestPingStrategy, []uint32{1}, 0)
+	defer e.close()
+	var worst atomic.Int64
+	stop := make(chan struct{})
+	defer close(stop)
+	go func() { // canary
+		for {
+			select {
+			case <-stop:
+				return
+			default:
+			}
+			t0 := time.Now()
+			time.Sleep(time.Millisecond)
+			if late := int64(time.Since(t0) - time.Millisecond); late > worst.Load() {
+				worst.Store(late)
+			}
+		}
+	}()
+	type res struct {
+		err error
+		el  time.Duration
+	}
+	out := make(chan res, k)
+	for i := 0; i < k; i++ {
+		go func() {
+			t0 := time.Now()
+			err := e.p.WaitMasterchainSeqno(context.Background(), 1<<30, T)
+			out <- res{err, time.Since(t0)}
+		}()
+	}
+	go func() { // the chain goes on: heads far below the target
+		for q := uint32(2); ; q++ {
+			select {
+			case <-stop:
+				return
+			case <-time.After(period):
+				e.vs[0].SetMasterHead(pool.VerifHead(q))
+			}
+		}
+	}()
+	limit := 3*T + T/2
+	deadline := time.After(limit)
+	var got []res
+	for len(got) < k {
+		select {
+		case r := <-out:
+			got = append(got, r)
+		case <-deadline:
+			late := time.Duration(worst.Load())
+			if late > T/4 {
+				return "", false
+			}
+			return fmt.Sprintf("FAIL deadline %d of %d waiters with timeout %v have not returned after %v while the best connection reports a head below the target every %v (timer lateness on this machine: %v); goroutines: %s",
+				k-len(got), k, T, limit, period, late, poolGoroutines()), true
+		}
+	}
+	late := time.Duration(worst.Load())
+	if late > T/4 {
+		return "", false
+	}
+	tol := T/2 + 10*late
+	for _, r := range got {
+		if r.err == nil {
+			return "FAIL rule waiter succeeded although its target was never reached", true
+		}
+		if r.el > T+tol {
+			return fmt.Sprintf("FAIL deadline waiter with timeout %v returned after %v (tolerance %v, timer lateness %v)", T, r.el, tol, late), true
+		}
+		if r.el < T-T/10 {
+			return fmt.Sprintf("FAIL rule waiter with timeout %v gave up after %v", T, r.el), true
+		}
+	}
+	return "ok", true
+}
+
 // ------------------------------------------------------------------------------------------------ generator
 
 func genWait(g *h.G, out func(op string, args ...string)) {
@@ -1633,6 +1732,10 @@ func genWait(g *h.G, out func(op string, args ...string)) {
 			out("go.wait.adv.subscribe", fmt.Sprint(1+k%4), mode)
 		}
 		out("go.wait.adv.queue", fmt.Sprint(1+k%5), []string{"late", "busy"}[k%2])
+	}
+	for k := 0; k < g.Scale(6, 40); k++ {
+		T := []int{120, 200, 300}[k%3]
+		out("go.wait.deadline", fmt.Sprint(T), fmt.Sprint(T/(2+k%3)), fmt.Sprint(1+k%3))
 	}
 	for k := 0; k < g.Scale(400, 6000); k++ {
 		out("go.wait.adv.random", fmt.Sprint(g.Rng.Intn(1<<30)), fmt.Sprint(20+g.Rng.Intn(80)))
